@@ -80,6 +80,20 @@ def jobs(tier, seed):
                 out.append({'prog': {'steps': [{'k': ['S', sa], 'rel': None}, {'k': ['S', sb], 'rel': None}]}, 'reg': 'shared'})
                 out.append({'prog': {'steps': [{'k': ['S', {'steps': [{'k': W_IN[1], 'rel': None}, {'k': ['S', sb], 'rel': None}], 'rep': r}], 'rel': None},
                                                {'k': ['S', sa], 'rel': ['F', 0]}]}, 'reg': 'shared'})
+    # outer count 3 with a nested counted block whose content is a plain wrapper / has parallel branches of unequal length
+    def _s(k, rel=None):
+        return {'k': k, 'rel': rel}
+    for inner_steps in ([_s(['S', {'steps': [_s(W_IN[0]), _s(W_IN[0])]}])],
+                        [_s(W_IN[0]), _s(W_IN[1])],
+                        [_s(W_IN[0]), _s(W_IN[1]), _s(W_IN[0])],
+                        [_s(W_IN[1]), _s(['S', {'steps': [_s(W_IN[0])]}])]):
+        for outer_extra in ([], [_s(W_IN[1])]):
+            for n_out, n_in in ((3, 2), (4, 2), (3, 3)):
+                if tier == 'quick' and (n_out, n_in) != (3, 2):
+                    continue
+                blk = {'steps': outer_extra + [_s(['S', {'steps': inner_steps, 'rep': n_in}])], 'rep': n_out}
+                out.append({'prog': {'steps': [_s(['S', blk])]}, 'reg': False})
+                out.append({'prog': {'steps': [_s(W_OUT[0]), _s(['S', blk])]}, 'reg': False})
     # repeated top-level circuit
     for p in gen.sample(inner, 120 if tier == 'quick' else 400, seed + 9):
         for r in reps[1:]:
